@@ -362,3 +362,8 @@ func RoundFloat(f float64, mode int) float64 {
 	}
 	return math.Trunc(f)
 }
+
+// Option switches an engine modelling option for the rest of the path
+// ("exact-small-floats": FormatFloat of integral |x| < 1000 is computed;
+// "format-errors": error messages are formatted). Natively a no-op.
+func Option(name string) {}
